@@ -30,6 +30,8 @@ mod scheduler;
 #[cfg(feature = "test-utils")]
 pub mod test_utils;
 mod tx_dependency;
+#[cfg(grevm_verif)]
+pub mod verif;
 
 pub(crate) use model::{
     AbortReason, AccountBasic, LocationAndType, MVMemory, MemoryEntry, MemoryValue, ReadVersion,
